@@ -9,6 +9,7 @@ import (
 	"runtime"
 	"strings"
 	"sync"
+	"time"
 
 	"gitee.com/xuesongtao/protoc-go-valid/valid"
 )
@@ -116,7 +117,39 @@ const (
 	UrlEnc     = "url-enc"
 	UrlEncFull = "url-encfull"
 	UrlPtr     = "url-ptr" // *string input
+	// StructCtx: the ruled field F in the middle of a struct with neighbours of other kinds —
+	// struct{ T0 time.Time; B string; F T; T1 *time.Time; C uint8; T2 time.Time; G T } (G carries the
+	// same rule and value as F). Whatever the neighbours are, F and G are judged by their own values.
+	StructCtx = "struct-ctx"
 )
+
+var (
+	ctxMu    sync.Mutex
+	ctxTypes = map[string]reflect.Type{}
+	timeT    = reflect.TypeOf(time.Time{})
+)
+
+func ctxType(t reflect.Type, tag string) reflect.Type {
+	ctxMu.Lock()
+	defer ctxMu.Unlock()
+	k := t.String() + "\x00" + tag
+	if st, ok := ctxTypes[k]; ok {
+		return st
+	}
+	st := reflect.StructOf([]reflect.StructField{
+		{Name: "T0", Type: timeT},
+		{Name: "B", Type: reflect.TypeOf("")},
+		{Name: "F", Type: t, Tag: reflect.StructTag(tag)},
+		{Name: "T1", Type: reflect.PointerTo(timeT)},
+		{Name: "C", Type: reflect.TypeOf(uint8(0))},
+		{Name: "T2", Type: timeT},
+		{Name: "G", Type: t, Tag: reflect.StructTag(tag)},
+	})
+	if len(ctxTypes) < 4096 {
+		ctxTypes[k] = st
+	}
+	return st
+}
 
 // Carry validates v under rule through the given carrier. ok=false when the carrier cannot
 // express the case (e.g. Url for a non-string).
@@ -137,6 +170,37 @@ func Carry(carrier string, v reflect.Value, rule string) (out Out, ok bool) {
 		obj := reflect.New(st)
 		obj.Elem().Field(0).Set(v)
 		return Call(func() error { return valid.Struct(obj.Interface()) }), true
+	case StructCtx:
+		tag := ""
+		var rm valid.RM
+		if TagSafe(rule) && len(rule)%2 == 0 {
+			tag = `valid:"` + rule + `"`
+		} else {
+			rm = valid.RM{"F": rule, "G": rule}
+		}
+		obj := reflect.New(ctxType(v.Type(), tag))
+		e := obj.Elem()
+		if len(rule)%3 != 0 {
+			e.Field(0).Set(reflect.ValueOf(time.Unix(1700000000, 0)))
+		}
+		e.Field(1).SetString("bbbbbbbbbbbbbbbbbbbbbbb")
+		e.Field(2).Set(v)
+		if len(rule)%5 < 2 {
+			tm := time.Unix(1600000000, 0)
+			e.Field(3).Set(reflect.ValueOf(&tm))
+		}
+		e.Field(4).SetUint(201)
+		e.Field(5).Set(reflect.ValueOf(time.Unix(1500000000, 0)))
+		e.Field(6).Set(v)
+		out := Call(func() error {
+			if rm != nil {
+				return valid.Struct(obj.Interface(), rm)
+			}
+			return valid.Struct(obj.Interface())
+		})
+		// F and G carry the same rule and the same value: fold the two identical halves into one
+		// so that the result reads like that of a one-field carrier
+		return foldTwin(out), true
 	case MapT:
 		m := reflect.MakeMap(reflect.MapOf(reflect.TypeOf(""), v.Type()))
 		m.SetMapIndex(reflect.ValueOf("k"), v)
@@ -197,4 +261,34 @@ func UrlUnreserved(s string) bool {
 		}
 	}
 	return true
+}
+
+// foldTwin reduces the result of a StructCtx call (fields F and G carry the same value under the
+// same rule) to the clauses of F. If the two halves differ the text is returned with a marker in
+// front: the same value under the same rule was judged differently within one call.
+func foldTwin(o Out) Out {
+	if o.Nil || o.Panic != "" {
+		return o
+	}
+	sep := valid.ErrEndFlag
+	parts := strings.Split(strings.TrimSuffix(o.Err, sep), sep)
+	bad := Out{Err: "TWIN-FIELDS-JUDGED-DIFFERENTLY " + o.Err}
+	if len(parts)%2 != 0 {
+		return bad
+	}
+	h := len(parts) / 2
+	for i := 0; i < h; i++ {
+		f, g := strings.TrimSpace(parts[i]), strings.TrimSpace(parts[h+i])
+		if !strings.HasPrefix(f, `"`) {
+			return bad
+		}
+		q := strings.IndexByte(f[1:], '"')
+		if q < 1 || f[q] != 'F' {
+			return bad
+		}
+		if f[:q]+"G"+f[q+1:] != g {
+			return bad
+		}
+	}
+	return Out{Err: strings.Join(parts[:h], sep)}
 }
